@@ -82,6 +82,63 @@ def run_gen(ctx, behs, layouts, label, seed0):
     return ok
 
 
+def reuse_histories(ctx, behs, rnd, n):
+    """One Lua object (one lexer + one parser) fed several programs in a row with update_from_lines,
+    and one Parser given several token lists: state carried from one parse to the next must not
+    change the tree of the concatenation / of the later program."""
+    from pico8.lua import lua, lexer, parser
+    from .. import ast2deriv
+    pool = [b for b in behs if progs.real_tokens(b)]
+    good = 0
+    for k in range(n):
+        picks = [pool[rnd.randrange(len(pool))] for _ in range(3)]
+        srcs = [progs.render(b, 'spaced', rnd) for b in picks]
+        if any(s is None for s in srcs):
+            continue
+        # (a) one Parser, several independent token lists
+        P = parser.Parser(version=8)
+        bad = None
+        for b, s in zip(picks, srcs):
+            lx = lexer.Lexer(version=8)
+            try:
+                lx.process_lines([s])
+                P.process_tokens(lx.tokens)
+                v = ast2deriv.V(lx.tokens)
+                v.chunk(P.root)
+                if v.d != b['deriv']:
+                    bad = ('deriv', s)
+            except Exception as e:  # noqa
+                bad = ('raises %s' % type(e).__name__, s)
+            if bad:
+                break
+        # (b) one Lua object updated with the programs one after the other: the tree of the concatenation
+        if not bad:
+            try:
+                whole = ast2deriv.trace(b''.join(srcs))['deriv']
+            except Exception:
+                whole = None        # the concatenation is not a program the visitor handles: not judged
+        if not bad and whole is not None:
+            L = lua.Lua(8)
+            try:
+                for s in srcs:
+                    L.update_from_lines([s])
+                v = ast2deriv.V(L.tokens)
+                v.chunk(L.root)
+                if v.d != whole:
+                    bad = ('deriv-incremental', b''.join(srcs))
+            except Exception as e:  # noqa
+                bad = ('raises-incremental %s' % type(e).__name__, b''.join(srcs))
+        if bad:
+            ctx.violation('parser-reuse/%s' % bad[0].split()[0], 'a parser / Lua object used for several programs in a row builds a different tree (%s) for %r' % (bad[0], bad[1][:80]),
+                          {'kind': 'reuse', 'srcs': [list(s) for s in srcs]})
+        else:
+            good += 1
+    ctx.traces += good
+    ctx.nontrivial += good
+    ctx.evaluations += n
+    ctx.notes['parser_reuse_histories'] = n
+
+
 def syn_traces(ctx, sources):
     traces, meta = [], []
     for name, src in sources:
@@ -134,6 +191,7 @@ def run(ctx):
         run_gen(ctx, progs.generate(ctx, 'expr', 9), ('tight', 'comments'), 'expr<=9', ctx.seed)
         run_gen(ctx, progs.generate(ctx, 'shortif', 19), lay, 'shortif<=19', ctx.seed)
         run_gen(ctx, progs.generate(ctx, 'all', 60, max_depth=5, simulate=4000), lay, 'simulated<=60', ctx.seed)
+    reuse_histories(ctx, progs.generate(ctx, 'shortif', 15 if ctx.quick else 19) + progs.generate(ctx, 'all', 6 if ctx.quick else 7), rnd, 300 if ctx.quick else 3000)
     ctx.exhaustive = True
     srcs = [s for s in fixture_sources() if s[0] != 'lexer_valid.lua']   # (contains `if (c) stmt end`, not a valid program)
     extra = []
